@@ -74,7 +74,7 @@ def make_input(rng, metric, style, n, dim):
 STYLES = ["f32c", "f64c", "f32f", "f32strided", "csr32", "csr32u", "csr64", "csc32", "bits", "f64f"]
 
 
-def check_case(res, rng, style, metric):
+def check_case(res, rng, style, metric, update_first=False):
     n = int(rng.choice([30, 70])); dim = 5 if style != "bits" else 3; k = 4
     X, cls = make_input(rng, metric, style, n, dim)
     sparse = sp.issparse(X)
@@ -104,6 +104,11 @@ def check_case(res, rng, style, metric):
         bad = w.changed()
         history = ["prepare", "query", "update", "query", "pickle", "compress"]
         rng.shuffle(history)
+        if history.index("compress") < history.index("update"):      # a compressed index refuses updates: keep the update observable
+            i, j = history.index("compress"), history.index("update")
+            history[i], history[j] = history[j], history[i]
+        if update_first:                                               # replacement rows written while _raw_data may still alias the caller
+            history.remove("update"); history.insert(0, "update")
         for op in [None] + history:
             if op == "prepare":
                 idx.prepare()
@@ -155,6 +160,8 @@ def run(res, tier, seed, search):
             check_case(res, rng, style, m)
         if style == "f32c":
             check_case(res, rng, style, "dot")
+            check_case(res, rng, style, "euclidean", update_first=True)
+            check_case(res, rng, style, "dot", update_first=True)
 
 
 if __name__ == "__main__":
